@@ -7,7 +7,7 @@ echo "# Seeded changes vs. quick checks ($(date -u +%Y-%m-%dT%H:%MZ), /repo $(gi
 echo >> $out
 echo "| seeded change | check | result |" >> $out
 echo "|---|---|---|" >> $out
-for d in seeded/C*_[abcd]; do
+for d in seeded/C*_[a-z]; do
   n=$(basename $d); id=${n%%_*}
   [ "$n" = "C04_b" ] && id=C08
   r=$(bin/try_mutant.sh $d $id 2>&1 | tail -1)
